@@ -241,7 +241,23 @@ func (ix *idxEngine) table() []tableEntry {
 		{
 			ID: "T6 divider bookkeeping",
 			Match: func(ix *idxEngine, o *idxOb) bool {
-				return (o.Kind == "IDX" || o.Kind == "SLC") && o.Fn.Name() == "commonRenderedLine" && strings.Contains(o.What, "fields")
+				// the last-element bookkeeping of the content-line builder: an index or re-slice of a []string at
+				// len-1 in the emitter method that assembles slots and dividers
+				if (o.Kind != "IDX" && o.Kind != "SLC") || o.Fn.Name() != "commonRenderedLine" {
+					return false
+				}
+				var sl ssa.Value
+				switch x := o.In.(type) {
+				case *ssa.IndexAddr:
+					sl = x.X
+				case *ssa.Slice:
+					sl = x.X
+				}
+				if sl == nil {
+					return false
+				}
+				st, isSl := sl.Type().Underlying().(*types.Slice)
+				return isSl && isStringType(st.Elem())
 			},
 			Premise: func(ix *idxEngine, o *idxOb) (bool, string) {
 				return ix.dividerPremise(o)
